@@ -34,7 +34,7 @@ import re
 
 from vf.unit import Unit, AnchorLost
 from vf.rustlex import code_tokens, match_close
-from .common import HEADER, FOOTER, contract, extract_struct, extract_struct_priv
+from .common import label_helper_lemmas, HEADER, FOOTER, contract, extract_struct, extract_struct_priv
 
 
 def cut(text, head_re):
@@ -1502,22 +1502,6 @@ pub proof fn lemma_declarative_reading_instance<'s>(c: ProguardRecord<'s>, r: Pr
     assert(in_by(b, None, m, a, 1) && !in_by(b, None, m, a, 2));
 }
 """
-
-
-def label_helper_lemmas(text, prop):
-    """Every proof function of the lemma text whose statement carries no label gets one (named after the function, charged to `prop`):
-    a step of the refinement that fails is a failed obligation of that property, not an anonymous event."""
-    out, pos = [], 0
-    for m in re.finditer(r"(?m)^pub proof fn (\w+)", text):
-        body = text.find("\n{", m.end())
-        hdr = text[m.end():body if body >= 0 else len(text)]
-        if "/*@L:" in hdr or "ensures" not in hdr:
-            continue
-        e = text.index("ensures", m.end())
-        out.append(text[pos:e + len("ensures")] + " /*@L:%s:%s*/" % (m.group(1), prop))
-        pos = e + len("ensures")
-    out.append(text[pos:])
-    return "".join(out)
 
 
 def build():
